@@ -57,7 +57,7 @@ enum Act {
     /// token: 0 T1, 1 T2, 2 unknown id; gas: 0 = 1 unit, 1 = more than the sender has, 2 = zero, 3 = negative
     /// gas_tok: which token pays the gas: 2 = the gas token, 1 = T2, 0 = T1 (aliasing with the transferred token)
     Out { token: u8, sender: usize, amt: Amt, trusted_dest: bool, data: bool, gas: u8, auth: bool, gas_tok: u8 },
-    /// recipient: 0 = U2, 1 = app with data
+    /// recipient: 0 = U2, 1 = app with data, 2 = the token service itself
     In { token: u8, recipient: u8, amt: Amt },
     /// the last successful inbound delivery is approved and delivered again, unchanged
     ReplayLastInbound,
@@ -187,10 +187,11 @@ impl Scenario for C05 {
         }
         if m.inbound < if self.thorough { 4 } else { 3 } {
             for token in [0u8, 1, 3, 4] {
-                for recipient in 0..2u8 {
+                for recipient in 0..3u8 {
                     for amt in [Amt::One, Amt::All, Amt::AllPlus1, Amt::Huge] {
                         if (token == 0 || token == 3) && amt != Amt::One && amt != Amt::Huge { continue; }
                         if token >= 3 && (recipient == 1 || amt == Amt::Huge) { continue; }
+                        if recipient == 2 && (amt != Amt::One || token >= 3) { continue; }
                         v.push(Act::In { token, recipient, amt });
                     }
                 }
@@ -203,8 +204,9 @@ impl Scenario for C05 {
         v.push(Act::SetTrusted);
         if m.advances < 1 {
             v.push(Act::Advance(20));
-            // ~64 days: longer than any TTL a contract extends to, shorter than the minimum persistent TTL
-            v.push(Act::Advance(1_100_000));
+            // ~405 days: longer than the maximum entry TTL, so every temporary entry is gone by then, while
+            // the world's keeper (World::set_seq) keeps instance / persistent entries alive
+            v.push(Act::Advance(7_000_000));
         }
         v
     }
@@ -319,7 +321,7 @@ impl Scenario for C05 {
                 out.kind = "inbound-replay";
                 let (token, recipient, x, _with_data) = m.last_in.unwrap();
                 let tid = match token { 0 => ctx.t1_id, 1 => ctx.t2_id, 3 => ctx.t3_id, _ => ctx.t4_id };
-                let (rcpt, data): (&Address, Vec<u8>) = if recipient == 0 { (&iw.users[1], vec![]) } else { (&iw.app, b"app-data".to_vec()) };
+                let (rcpt, data): (&Address, Vec<u8>) = match recipient { 0 => (&iw.users[1], vec![]), 1 => (&iw.app, b"app-data".to_vec()), _ => (&iw.its, vec![]) };
                 let payload = abi_hub(&RHub::ReceiveFromHub {
                     chain: X.as_bytes().to_vec(),
                     msg: RMsg::Transfer { token_id: tid, source_address: b"remote-sender".to_vec(), destination_address: addr_xdr(&iw.sc(rcpt)), amount: x as u128, data },
@@ -343,7 +345,7 @@ impl Scenario for C05 {
                 let native = tix == 0 || tix == 3;
                 let custody = if native { 0 } else { m.bal[tix][3] };
                 let x: i128 = match amt { Amt::One => 1, Amt::All => custody, Amt::AllPlus1 => custody + 1, _ => 1 };
-                let (rcpt, rix, data): (&Address, usize, Vec<u8>) = if *recipient == 0 { (&iw.users[1], 1, vec![]) } else { (&iw.app, 2, b"app-data".to_vec()) };
+                let (rcpt, rix, data): (&Address, usize, Vec<u8>) = match recipient { 0 => (&iw.users[1], 1, vec![]), 1 => (&iw.app, 2, b"app-data".to_vec()), _ => (&iw.its, 3, vec![]) };
                 let mut payload = abi_hub(&RHub::ReceiveFromHub {
                     chain: X.as_bytes().to_vec(),
                     msg: RMsg::Transfer { token_id: tid, source_address: b"remote-sender".to_vec(), destination_address: addr_xdr(&iw.sc(rcpt)), amount: x as u128, data: data.clone() },
@@ -377,7 +379,15 @@ impl Scenario for C05 {
                 if zero { m.inbound += 1; return; }
                 m.last_in = Some((*token, *recipient, x, !data.is_empty()));
                 m.inbound += 1;
-                if native { m.bal[tix][rix] += x; m.minted[tix] += x; } else { m.bal[tix][3] -= x; m.bal[tix][rix] += x; m.released[tix] += x; }
+                if native {
+                    m.bal[tix][rix] += x;
+                    m.minted[tix] += x;
+                } else if rix != 3 {
+                    m.bal[tix][3] -= x;
+                    m.bal[tix][rix] += x;
+                    m.released[tix] += x;
+                }
+                // (a release to the service itself leaves its custody where it was)
                 let mut must = vec![sstr(X), sbytes(&tid), sbytes(b"remote-sender"), w.sc_addr_val(rcpt), si128(x)];
                 if !data.is_empty() { must.push(sbytes(&data)); }
                 let r = match_events(
